@@ -3,6 +3,9 @@
 pub mod baseline;
 pub mod c01;
 pub mod c02;
+pub mod c14;
+pub mod c15;
+pub mod modelrun;
 pub mod c19;
 pub mod diskrun;
 
@@ -35,6 +38,8 @@ pub fn main(args: &[String]) -> i32 {
         "C19" => c19::run(&tier, seed, replay),
         "C02" => c02::run(&tier, seed, replay),
         "C01" => c01::run(&tier, seed, replay),
+        "C15" => c15::run(&tier, seed, replay),
+        "C14" => c14::run(&tier, seed, replay),
         _ => {
             eprintln!("unknown property id {}", id);
             2
